@@ -29,3 +29,8 @@ def run(ctx):
         ctx, PID, "props/C01.v", make_work,
         "the judge applied to every engine answer is proved sound (bag equality / sorted-slice admission) over the executable reference semantics model/Sql.v",
         "type-directed random queries (projection, filter, inner/left/right/cross joins, derived tables, GROUP BY/HAVING, DISTINCT, UNION [ALL], ORDER BY/LIMIT/OFFSET, CTEs, scalar/EXISTS/IN subqueries incl. correlated) over 3 random small tables with NULLs, duplicates and empty tables; each run under a random (partitions, batch_size, optimizer, scheduler) configuration; distinct = distinct (SQL text, config)")
+
+
+def replay(ctx, payload):
+    from . import sqlrun
+    return sqlrun.replay(ctx, payload)
